@@ -10,6 +10,9 @@ def evalByName : String → Except String PropEval
   | "d_hondt" => pure (haEval Gen.Divisor.d_hondt)
   | "sainte_lague" => pure (haEval Gen.Divisor.sainte_lague)
   | "hare_lr" => pure lrHareEval
+  -- modified_first_coef(d_hondt, 3/2), modified_first_coef(sainte_lague, 7/5)
+  | "d_hondt_mod" => pure (haEval (Gen.Divisor.modified_first_coef Gen.Divisor.d_hondt ((3 : Rat) / 2)))
+  | "sainte_lague_mod" => pure (haEval (Gen.Divisor.modified_first_coef Gen.Divisor.sainte_lague ((7 : Rat) / 5)))
   | s => throw s!"unknown evaluator {s}"
 
 def getCVotes (j : Json) (k : String) : Except String CVotes := do
@@ -81,9 +84,18 @@ def handle (op : String) (j : Json) : Option (Except String Json) :=
       let cprev ← getCSeats j "cprev"
       let c ← ctyCalc j ev fuel
       let aev ← evalByName (← j.getObjValAs? String "alloc")
+      if wrap = "multistage3" then
+        -- two fixed-outcome stages, then the adjusted stage; the adjustment is reported for their sum
+        let cprev2 ← getCSeats j "cprev2"
+        let elected := addNDist (addNDist [] (cseatsToNDist cprev)) (cseatsToNDist cprev2)
+        let adjJ := match ndToCSeats elected with
+          | some pr => exceptJson natJson (c cv n pr)
+          | none => errJson unmodelled
+        pure (Json.mkObj [("adj", adjJ), ("result", exceptJson ndistJson (multistageDE [cprev, cprev2] c fev aev cv n))])
+      else
       let adjJ := exceptJson natJson (c cv n cprev)
       let resJ :=
-        if wrap = "multistage" then exceptJson ndistJson (multistageDE cprev c fev aev cv n)
+        if wrap = "multistage" then exceptJson ndistJson (multistageDE [cprev] c fev aev cv n)
         else exceptJson ndistJson (adjustedByParty c fev aev cv n cprev)
       pure (Json.mkObj [("adj", adjJ), ("result", resJ)])
     else
@@ -91,6 +103,15 @@ def handle (op : String) (j : Json) : Option (Except String Json) :=
       let prev ← getNatMap j "prev"
       let caps ← getNatMap j "max"
       let c ← flatCalc kind ev fuel
+      if wrap = "multistage3" then
+        let prev2 ← getNatMap j "prev2"
+        let elected := addDist (addDist [] (seatsToDist prev)) (seatsToDist prev2)
+        let adjJ := match distToSeats elected with
+          | some pr => exceptJson natJson (c votes n pr caps)
+          | none => errJson unmodelled
+        pure (Json.mkObj [("adj", adjJ), ("result", exceptJson distJson
+          (multistage [(mockStage prev, votes), (mockStage prev2, votes), (adjustedSeatCount c fev, votes)] n [] caps))])
+      else
       let adjJ := exceptJson natJson (c votes n prev caps)
       let resJ :=
         if wrap = "multistage" then
@@ -100,5 +121,18 @@ def handle (op : String) (j : Json) : Option (Except String Json) :=
           exceptJson distJson (adjustedSeatCount c fev votes n prev caps)
       pure (Json.mkObj [("adj", adjJ), ("result", resJ)])
   | _ => none
+
+/-- "adjusted_seq": the same configuration on several elections in a row ("elections": objects with the per-election
+    fields); the model is a pure function, so every election is answered on its own -/
+def handleAll (op : String) (j : Json) : Option (Except String Json) :=
+  match op with
+  | "adjusted_seq" => some do
+    let els ← j.getObjValAs? (Array Json) "elections"
+    let outs ← els.toList.mapM (fun e =>
+      match handle "adjusted_eval" (j.mergeObj e) with
+      | some r => r
+      | none => throw "bad election")
+    pure (Json.arr outs.toArray)
+  | _ => handle op j
 
 end VL.Drv.C15
